@@ -268,7 +268,9 @@ class Ctx:
         out = os.path.join(outdir, cmdname + ('-race' if race else ''))
         if not os.path.exists(os.path.join(ROOT, 'build', 'stubflux', 'libflux.a')):
             subprocess.run([os.path.join(ROOT, 'stubflux', 'build.sh')], check=True, env=go_env(), stdout=subprocess.DEVNULL)
-        cmd = ['go', 'build', '-tags', tags]
+        # -trimpath keeps absolute paths out of the build cache keys, so a scratch worktree (VERIF_REPO) re-uses the
+        # compiled packages of /repo for everything the seeded change does not touch
+        cmd = ['go', 'build', '-trimpath', '-tags', tags]
         if repo != '/repo':
             alt = os.path.join(outdir, 'alt.mod')
             with open(os.path.join(ROOT, 'harness', 'go.mod')) as f:
